@@ -16,31 +16,33 @@ Theorem C05_state_restored_cyg : forall c, shp c = CYG -> forall k s hk,
 Proof. exact restored_cyg. Qed.
 Print Assumptions C05_state_restored_cyg.
 
-(* The same for the -pg / fentry / PLT shape under the exact guard that no trigger can change the
-   state of a call that is then rejected (no time=/size= triggers, depth= > 0, -D > 0). *)
-Theorem C05_state_restored_pg_partial : forall c, safe_pg c -> forall k s hk, 0 < max_depth (fc s) ->
+(* The same for the -pg / fentry shape (a frame is pushed only for an accepted call): EVERY configuration as well,
+   since a rejected entry undoes what its trigger changed (mcount_entry_filter_undo, fix of the defect
+   pg-reject-leak). *)
+Theorem C05_state_restored_pg : forall c, shp c = PG -> forall k s hk,
   exists s', exec c (flat k) (s, hk) = (s', hk) /\
              fc s' = fc s /\ ridx s' = ridx s /\ eqw (stack s') (stack s).
 Proof. exact restored_pg. Qed.
-Print Assumptions C05_state_restored_pg_partial.
+Print Assumptions C05_state_restored_pg.
 
-(* Without the guard the statement is FALSE for the -pg shape (genuine defect, known finding):
-   a rejected entry leaves the changed threshold / depth behind, and the recorded result then depends
-   on the instrumentation method. *)
-Theorem C05_pg_leak_refuted :
-  ftime (fc (fst (exec leak_cfg [Enter 0 100; Enter 1 110; Leave 120] (init, [])))) <>
-  ftime (fc (fst (exec leak_cfg [Enter 0 100] (init, [])))) /\
-  out (fst leak_run) = [] /\
-  out (fst (exec (cyg_of leak_cfg) [Enter 0 100; Enter 1 110; Leave 120; Leave 200] (init, []))) <> [].
-Proof. exact pg_leak_refuted. Qed.
-Print Assumptions C05_pg_leak_refuted.
-
-Theorem C05_pg_leak2_refuted :
+(* The code as found left the change behind (legacy semantics [exec_legacy]): the state after a rejected call
+   differed from the state before it, the caller vanished from the trace and the result depended on the
+   instrumentation method; with the repair both shapes record the same. *)
+Theorem C05_pg_leak_legacy_refuted :
+  ftime (fc (fst (exec_legacy leak_cfg [Enter 0 100; Enter 1 110; Leave 120] (init, [])))) <>
+  ftime (fc (fst (exec_legacy leak_cfg [Enter 0 100] (init, [])))) /\
+  out (fst (exec_legacy leak_cfg leak_events (init, []))) = [] /\
+  out (fst (exec (cyg_of leak_cfg) leak_events (init, []))) <> [] /\
+  out (fst (exec leak_cfg leak_events (init, []))) = out (fst (exec (cyg_of leak_cfg) leak_events (init, []))).
+Proof. exact pg_leak_legacy_refuted. Qed.
+Print Assumptions C05_pg_leak_legacy_refuted.
+Theorem C05_pg_leak2_legacy_refuted :
   let es := [Enter 0 100; Enter 1 110; Leave 120; Enter 2 130; Leave 140; Leave 200] in
-  length (out (fst (exec leak2_cfg es (init, [])))) = 2%nat /\
+  length (out (fst (exec_legacy leak2_cfg es (init, [])))) = 2%nat /\
+  length (out (fst (exec leak2_cfg es (init, [])))) = 4%nat /\
   length (out (fst (exec (cyg_of leak2_cfg) es (init, [])))) = 4%nat.
-Proof. exact pg_leak2_refuted. Qed.
-Print Assumptions C05_pg_leak2_refuted.
+Proof. exact pg_leak2_legacy_refuted. Qed.
+Print Assumptions C05_pg_leak2_legacy_refuted.
 
 (* Documented semantics, stage 0 (-t and -D): the recorded trace equals the tree-recursive
    specification [recs] (a call is kept iff it is above the depth limit and ran longer than the
@@ -74,22 +76,12 @@ Theorem C05_nested_output_t_D : forall thr gd ms sh f, all_timed f -> heights f 
 Proof. exact recorded_stream_nested. Qed.
 Print Assumptions C05_nested_output_t_D.
 
-(* non-vacuity of the guard: an option set with -F, -N, -D and a depth= trigger satisfies it *)
-Theorem C05_safe_pg_example :
-  safe_pg (mkcfg [(1, {| t_filter := Some true; t_depth := None; t_time := None; t_size := None;
-                         t_trace_on := false; t_trace_off := false; t_trace := false; t_caller := false |});
-                  (2, {| t_filter := Some false; t_depth := Some 2; t_time := None; t_size := None;
-                         t_trace_on := false; t_trace_off := false; t_trace := true; t_caller := false |})]
-                 true false 3 10 1024 [] PG).
-Proof. exact safe_pg_example. Qed.
-Print Assumptions C05_safe_pg_example.
-
 (* Proper nesting for EVERY option set without a trace_on/trace_off trigger (the property's own exception):
    any trigger table (-F/-N/-C/-Z, depth=/time=/size=/trace), any -D/-t, both instrumentation shapes, from the
    initial state, any complete call forest within --max-stack.  The recorded stream is the flattening of a
    forest EMBEDDED in the call history ([emb]: calls may be left out, their callees are promoted; nothing is
    invented, reordered or re-timed) with depth = number of open recorded calls - so every recorded call's
-   recorded ancestors are present.  Holds inside the known -pg leak class as well. *)
+   recorded ancestors are present.   *)
 Theorem C05_recorded_is_embedded_subhistory : forall c, no_switch c -> forall f,
   all_ended f -> heights f <= max_stack c ->
   exists g, emb g f /\ out (fst (exec c (flat_forest f) (init, []))) = flat_map (history 0) g.
@@ -120,8 +112,8 @@ Print Assumptions C05_no_switch_example.
 
 (* Documented semantics, stage 2: -F / -N / -C / -D / -t together with the trigger actions depth=N, time=T, size=Z and trace
    (alone or combined with filter / notrace / caller on the same function), any trigger table with well-formed values, any
-   threshold, both instrumentation shapes (the -pg / fentry / PLT shape under [pg_guard], outside which the known
-   leak pg-reject-leak applies): the recorded stream equals the tree-recursive specification [sel2]. *)
+   threshold, both instrumentation shapes (the -pg / fentry shape under [pg_guard]: a time= / size= trigger of a call rejected by the depth limit is not
+   applied to its callees there, see the known finding pg-rejected-trigger-scope): the recorded stream equals the tree-recursive specification [sel2]. *)
 Theorem C05_matches_documented_filters_depth_time_triggers : forall tg szf fm hc gd thr ms sh,
   0 < gd -> wf_tg tg -> sh = CYG \/ pg_guard tg -> forall f, all_timed f -> heights f <= ms ->
   out (fst (exec (fcfg2 tg szf fm hc gd thr ms sh) (flat_forest f) (init, []))) =
